@@ -8,6 +8,7 @@ use crate::model::V;
 
 macro_rules! main_family {
     ($( ($t:ty, $v0:ident, $v2:ident, $pat:pat, $to_v:expr, $from_w:expr) ),* $(,)?) => {
+        #[derive(Clone)]
         pub enum MainFn {
             $( $v0(TypedFunc<NoCtx, fn() -> $t>), $v2(TypedFunc<NoCtx, fn($t, $t) -> $t>), )*
             Unit0(TypedFunc<NoCtx, fn() -> ()>),
